@@ -1,5 +1,6 @@
 import Pm.ReplyProof
 import Pm.QueryEx
+import Pm.MatchOwn
 /-! # C03 — status queries report exactly what the devices answered  (reply side: `client.c`)
 
 About the real `finalReply` / `install` of `Pm/Daemon.lean`, for every command `c : CmdC` (any target list,
@@ -270,8 +271,8 @@ theorem C03_write_cells (as : List Pm.Dev2.Arg) (ev : WEv) :
     is a plug of the device wired to `ev.node`, or a `setresult` whose capture names such a plug; `ev.text` is the status
     capture of the device's last successful regex match (`subOf d`), a piece of that match's subject; the state (result)
     written is that of the first interpretation matching the text (`C08_first_matching_interp`).
-    NOTE what this does *not* say: that the match was made during this command.  The match register belongs to the device
-    and is recycled only by the next `expect`: see `C03_stale_match_counterexample`. -/
+    That the match was made during this command, by an `expect` of this very action, is `C03_match_is_own` (since fix e0ac8ce
+    the match register is recycled whenever an action leaves the queue; before, see `C03_stale_match_f38_fixed`). -/
 theorem C03_write_spelled (cfg : List (Bytes × List Plug)) (g A : Nat) (ev : WEv) (h : Mine cfg g A ev) :
     ev.cid = g ∧ ev.al = A ∧
     ∃ x ∈ cfg, ev.dev = x.1 ∧ ∃ (d : Dev) (a : Action) (o : Oracle) (plug : Plug),
@@ -482,9 +483,9 @@ theorem C03_failed_turn_writes_nothing (fuel : Nat) (c : Pm.Dev2.CS) (o : Oracle
        that `expect` matched (NUL shown as 0xff); its text is a piece of that subject (`C03_write_spelled`).
     2. No statement other than `expect` changes the register: between an action's `expect` and its `setplugstate` the
        captured text stays what it was.
-    3. `_disconnect` empties the device's two buffers but leaves the register alone; nor is it reset when an action ends or
-       begins.  So a `setplugstate` that is *not* preceded by an `expect` of its own action reads what the last `expect` of
-       whichever action — of another command, possibly over an earlier connection — left: `C03_stale_match_counterexample`. -/
+    3. `_disconnect` empties the device's two buffers but leaves the register alone.  (Since fix e0ac8ce `_process_action`
+       recycles it whenever an action leaves the queue — `C03_match_is_own`; `_disconnect` still does not, which only the
+       login action that follows can notice: `C03_login_sees_stale_match_counterexample`.) -/
 theorem C03_match_register :
     (∀ (d : Dev) (a a' : Action) (o o' : Oracle) (pat : Nat) (offs : List (Int × Int)), d.fromBuf ≠ [] →
       (Pm.Dev2.askRx o pat (Pm.Dev2.Interp.rxSubject d.fromBuf)).2.1 = some offs →
@@ -542,31 +543,102 @@ example : AliveX w1 (q2 :: ([q3] ++ [qLate])) ∧ cliRec (runX w1 (q2 :: ([q3] +
 example : (entryOf ([] : List WEv) ['a', '1']).state = 0 ∧ (entryOf ([] : List WEv) ['a', '1']).val = none := by decide +kernel
 example : (entryOf (hist w1 (q2 :: ([q3] ++ [q4])) k1.al) ['a', '1']).state = 2 := by decide +kernel
 
-/-- **The match register outlives the query (`_counterexample` to "only if *during this very query* its device reported
-    that").**  Device `A` of the example with, in addition, a `beacon` script that is a `setplugstate` alone (no `expect`
-    before it; the parser accepts such a script).  Client 1's `status a1` has been answered `on` (world `B.w4`): the device's
-    match register still holds the subject `1 on` of that query's `expect`, its input buffer is empty.  In pass `B.q5`
-    the client sends `beacon a1`; the pass brings no event for the device's descriptor.  All hypotheses of
-    `C03_justified_one_pass` hold; the request is accepted and answered in this one pass; the history of its arglist is one
-    write, by the beacon action of this command, of the state `on` with the text `on` cut from the subject `1 on` — and the
-    client is told `on: a1` for the beacon, which the device never reported.  (In C: `dev->xmatch` is created once per
-    device and recycled only by `_process_expect`; `_process_setplugstate` reads whatever the last `expect` of *any* action
-    left.  A script whose `setplugstate` follows an `expect` of its own — every script in the distributed device files —
-    overwrites the register first.) -/
-theorem C03_stale_match_counterexample :
+/-- **F38 repaired: the old witness of `C03_stale_match_counterexample` now shows `unknown`.**  Device `A` of the example with,
+    in addition, a `beacon` script that is a `setplugstate` alone (no `expect` before it; the parser accepts such a script).
+    Client 1's `status a1` has been answered `on` (world `B.w4`).  Before fix e0ac8ce the device's match register still held the
+    subject `1 on` of that query's `expect`, and the `beacon a1` of pass `B.q5` — a pass that brings no event for the device's
+    descriptor — was answered `on: a1`, which the device never reported.  Now `_process_action` has recycled the register when
+    the status action left the queue (`xm_str = NULL`, `xm_used = false` in `B.w4`): all hypotheses of `C03_justified_one_pass`
+    hold as before, the request is accepted and answered in this one pass, the history of its arglist is *empty* — the beacon
+    action made no write — and the client is told `unknown: a1`. -/
+theorem C03_stale_match_f38_fixed :
     Inv B.w4 ∧ AliveX B.w4 [B.q5] ∧ (∀ c k, cliRec B.w4 1 = some c → c.cmd = some k → False) ∧
     cliRec (cliPostPoll (feed B.w4 B.q5.rx) B.q5.p.acc B.q5.p.envs) 1 = some B.c5 ∧ B.c5.cmd = some B.k5 ∧
     (B.k5.com, B.k5.names, B.k5.al) = (Com.beacon, [['a', '1']], 2) ∧ (∀ n ∈ B.k5.names, ByteName n) ∧
     cliRec (runX B.w4 [B.q5]) 1 = some B.c6 ∧ B.c6.cmd = none ∧
-    hist B.w4 [B.q5] B.k5.al =
-      [{ dev := [65], cid := 1, al := 2, com := 21, plug := [49], node := [97, 49], kind := .state .on, text := bstr "on",
-         subject := some (bstr "1 on\n") }] ∧
-    (B.w4.devs.map fun nd => (nd.2.xmStr, nd.2.fromBuf)) = [(some (bstr "1 on\n"), [])] ∧
+    hist B.w4 [B.q5] B.k5.al = [] ∧
+    (B.w4.devs.map fun nd => (nd.2.xmStr, nd.2.xmUsed, nd.2.fromBuf)) = [(none, false, [])] ∧
     ((runX B.w4 [B.q5]).devs.map fun nd => nd.2.fromBuf) = [[]] ∧ B.q5.p.envs.find? (·.fd == 2000) = none ∧
     B.c6.toBuf.drop B.c5.toBuf.length =
-      bstr "302 on:      a1\r\n302 off:     \r\n302 unknown: \r\n103 Query complete\r\npowerman> " :=
+      bstr "302 on:      \r\n302 off:     \r\n302 unknown: a1\r\n103 Query complete\r\npowerman> " :=
   ⟨B.inv4, B.alive5, B.idle4, B.hc5, B.hk5, B.k5_is, B.k5_bytes, B.hc6, B.idle6, B.hist5, B.stale.1, B.stale.2.1, B.stale.2.2, B.buf6⟩
 
 end examples
+
+/-! ### the match object belongs to the action that filled it (fix e0ac8ce, finding F38) -/
+section matchOwn
+open Pm.Dev2 Pm.Dev2.MatchOwn Pm.Dev2.QEv
+
+/-- **Every write of an action reads a match made by an `expect` of this same action, on this run of it.**
+    `AtStart a`: the action stands where `_create_action` / `_rewind_action` put it — one context, at the first statement of the
+    script, no `send`, `delay`, `if` or `foreach` in progress — and that first statement is not an `expect` (which recycles
+    the match object itself).  `RegInv d`: every queued action has a well-formed context stack, a device that is not CONNECTED
+    is not logged in, and **on a connected, logged-in device the match object is in use only while the head of the queue is
+    past its start**.
+    1. `RegInv` holds in every state the daemon can bring a device to from `dev_create` (`Login2.Reach`: the initial connect,
+       passes of `dev_post_poll` with any kernel answers and any regex answers that do not end in a modelled abort, client
+       commands, the store hand-over) — because `_process_action` recycles the match object whenever an action leaves the
+       queue: on completion and in the error branch.
+    2. Hence at the first statement of any action of a connected, logged-in device — new, or rewound by `_enqueue_login`
+       and reached again after the reconnect and the login — the match object is empty: every `$N` reads as absent, and a
+       `setplugstate` / `setresult` executed there changes nothing, calls no `regexec`, says nothing.
+    3. A write (`stmtEv`) needs match data; so the head of the queue that makes a write is past its start: statements of
+       *this* action have run since it was created or rewound.  Statements are executed for the head of the queue only
+       (`processActionBody`), no statement but `expect` fills the match object (`C03_match_register`), the head stays the head
+       until it leaves the queue — which recycles.  So the match a write reads was made by an `expect` of the writing action
+       itself, after its (re)start.
+    What this does not cover is the login action (no client, no arglist): `C03_login_sees_stale_match_counterexample`. -/
+theorem C03_match_is_own :
+    (∀ d0 d : Dev, Login2.Reach d0 d → d0.acts = [] → d0.loggedIn = false → RegInv d) ∧
+    (∀ (d : Dev) (a : Action) (rest : List Action), RegInv d → d.conn = 2 → d.loggedIn = true → d.acts = a :: rest → AtStart a →
+      d.xmUsed = false ∧ (∀ i, subOf d i = none) ∧
+      (∀ o e lit pm sm is, (stmtSetplugstate d a o e lit pm sm is).dev = d ∧ (stmtSetplugstate d a o e lit pm sm is).oracle = o ∧
+        (stmtSetplugstate d a o e lit pm sm is).out = []) ∧
+      (∀ o pm sm is, (stmtSetresult d a o pm sm is).dev = d ∧ (stmtSetresult d a o pm sm is).oracle = o ∧
+        (stmtSetresult d a o pm sm is).out = [])) ∧
+    (∀ (d : Dev) (a : Action) (o : Oracle), stmtEv d a o ≠ [] → d.xmUsed = true) ∧
+    (∀ (d : Dev) (a : Action) (rest : List Action) (o : Oracle), RegInv d → d.conn = 2 → d.loggedIn = true → d.acts = a :: rest →
+      stmtEv d a o ≠ [] → ¬ AtStart a) := by
+  refine ⟨fun d0 d h ha hl => Reach.regInv h (regInv_init d0 ha hl), ?_, stmtEv_needs_match, write_not_atStart⟩
+  intro d a rest h hc hl ha hs
+  have hu : d.xmUsed = false := h.clean hc hl (by intro a' rest' hx; rw [ha] at hx; cases hx; exact hs)
+  exact ⟨hu, fun i => subOf_unused d i hu, fun o e lit pm sm is => stmtSetplugstate_unused d a o e lit pm sm is hu,
+    fun o pm sm is => stmtSetresult_unused d a o pm sm is hu⟩
+
+/-- non-vacuity: the device of `C03_login_sees_stale_match_counterexample` after its second pass is reachable from
+    `dev_create`, so the invariant holds of it — connected, not yet logged in, the login action past its `expect` -/
+example : RegInv MatchOwn.Ex.d2 ∧ MatchOwn.Ex.d2.xmUsed = true ∧ MatchOwn.Ex.d2.conn = 2 :=
+  ⟨C03_match_is_own.1 _ _ MatchOwn.Ex.reach2 rfl rfl, MatchOwn.Ex.d2_is.1, MatchOwn.Ex.d2_is.2.1⟩
+/-- non-vacuity of part 2: device `A` of the F38 witness, connected and logged in, with the beacon action — a `setplugstate`
+    alone — at the head of its queue -/
+example : ∃ (d : Dev) (a : Action), RegInv d ∧ d.conn = 2 ∧ d.loggedIn = true ∧ d.acts = [a] ∧ AtStart a :=
+  ⟨{ Pm.Daemon.QRun.Ex.B.devB with acts := [Pm.Daemon.mkAction Pm.Daemon.QRun.Ex.B.devB 21 none 1 false 2 0] }, _,
+   ⟨by intro a hm; simp at hm; subst hm; exact mkAction_stackOK _ _ _ _ _ _ _, by decide, by intro _ _ _; rfl⟩,
+   rfl, rfl, rfl, ⟨_, rfl, rfl, rfl, rfl, by intro pat h; simp [Pm.Daemon.QRun.Ex.B.devB, Pm.Daemon.QRun.Ex.B.scripts] at h⟩⟩
+
+/-- **What the fix does not cover: the login action after an i/o error** (`_counterexample` to "every action starts without
+    match data").  `_disconnect` — reached from `_reconnect` after a read/write error or a hang-up — destroys a queued login
+    action itself and does not recycle the match object; `_connect` then puts a new login action at the head.  Witness: a
+    device whose login script is `setplugstate $1 $2; expect; send` (accepted by the parser, rejected by `specOK`), with a plug
+    `o`.  Pass 2: the device says `ok`, the login's `expect` matches, its `send` waits.  Pass 3, two seconds later: end of
+    file, `_reconnect` connects at once, and the state in which `_process_action` starts (`d3pre`) has the new login action at
+    its first statement with the match object still holding `ok` from the old connection; its `setplugstate` makes a write
+    event from it and `regexec` is called on the stale `k` (the oracle's one answer is consumed, nothing is left unasked).
+    Harmless for the clients: a login action has no arglist (`arglist_find(NULL, …)` finds nothing) and no client, and the
+    action behind it starts clean because the login either completes or fails — and both recycle (`C03_match_is_own`). -/
+theorem C03_login_sees_stale_match_counterexample :
+    Login2.Reach MatchOwn.Ex.d0 MatchOwn.Ex.d2 ∧ MatchOwn.Ex.d0.acts = [] ∧ MatchOwn.Ex.d0.loggedIn = false ∧
+    MatchOwn.Ex.d3pre = (Login2.postPollPre MatchOwn.Ex.d2 MatchOwn.Ex.env3).1.dev ∧
+    MatchOwn.Ex.d3pre.xmUsed = true ∧ MatchOwn.Ex.d3pre.xmStr = some [111, 107] ∧ MatchOwn.Ex.d3pre.conn = 2 ∧
+    MatchOwn.Ex.d3pre.loggedIn = false ∧
+    MatchOwn.Ex.d3pre.acts.map (fun a => (a.com, a.exec.length, (topCtx a).pos, (topCtx a).processing)) = [(0, 1, 0, false)] ∧
+    (MatchOwn.Ex.d3pre.acts.flatMap fun a => (stmtEv MatchOwn.Ex.d3pre a MatchOwn.Ex.o3).map fun ev => (ev.cid, ev.al, ev.text, ev.subject)) =
+      [(0, 0, [107], some [111, 107])] ∧
+    (postPoll MatchOwn.Ex.d2 MatchOwn.Ex.env3 MatchOwn.Ex.o3).2.1.calls = [] ∧
+    (postPoll MatchOwn.Ex.d2 MatchOwn.Ex.env3 MatchOwn.Ex.o3).2.2.1 = [] ∧
+    (postPoll MatchOwn.Ex.d2 MatchOwn.Ex.env3 MatchOwn.Ex.o3).1.aborted = false :=
+  ⟨MatchOwn.Ex.reach2, rfl, rfl, rfl, MatchOwn.Ex.d3pre_is⟩
+
+end matchOwn
 
 end Pm.Props.C03
